@@ -1,7 +1,10 @@
 """C16 -- Fortran-written numbers are read with Fortran's meaning, and never raise.
 
 tie: T (fortran_float/fortran_int translated from the AST on every run) + H (CPython's
-float()/int() grammar, Base/PyNum.v, validated against the running interpreter)."""
+float()/int() grammar, Base/PyNum.v, validated against the running interpreter; the rendering
+functions of coq/C16/Styles.v and IntRender.v, run extracted against an independent formatter).
+Purity (the result is a function of the text and the caller's blank value only) holds of the model by
+construction and is only TESTED on the implementation (call_order)."""
 import os, sys, math, struct, itertools, random
 import vf
 from translate import pyfun
@@ -86,6 +89,126 @@ def render_int(rng):
     if rng.random() < 0.15 and len(text) > 1:
         i = rng.randint(1, len(text) - 1); text = text[:i] + ' ' + text[i:]
     return text, n
+
+
+def py_render_real(neg, digs, e, plus, lead0, scale, ek, el, ep, ew, gaps):
+    """Independent formatter written from Fortran's edit-descriptor rules (Ew.d / Dw.d / ESw.d / kP /
+    Ew.dEe / Fw.d / SP), NOT from the Coq definition: the real (-1)^neg * 0.digs * 10^e with `scale`
+    digits before the point, exponent part ek = 'L' letter el + sign (ep: '+', 'b' blank, 'n' nothing
+    for a non-negative exponent) + at least ew digits, 'D' letter dropped, 'N' no exponent; gaps[i]
+    blanks in front of the i-th character, gaps[len] blanks at the end."""
+    k = min(scale, len(digs))
+    pe = e - k
+    body = ('-' if neg else '+' if plus else '') + ('0' if lead0 else '') + digs[:k] + '.' + digs[k:]
+    if ek != 'N':
+        sg = '-' if pe < 0 else ('+' if ek == 'D' else {'+': '+', 'b': ' ', 'n': ''}[ep])
+        body += (el if ek == 'L' else '') + sg + str(abs(pe)).zfill(ew)
+    return put_blanks(body, gaps)
+
+
+def py_render_int(z, plus, m, gaps):
+    return put_blanks(('-' if z < 0 else '+' if plus else '') + str(abs(z)).zfill(m), gaps)
+
+
+def put_blanks(body, gaps):
+    g = lambda i: gaps[i] if i < len(gaps) else 0
+    return ''.join(' ' * g(i) + c for i, c in enumerate(body)) + ' ' * g(len(body))
+
+
+def gen_gaps(rng, n):
+    """blank placement for a text of n characters: padding in front / behind, sometimes blanks inside"""
+    gaps = [0] * (n + 1)
+    r = rng.random()
+    if r < 0.5: gaps[0] = rng.randint(1, 6)
+    if 0.35 < r < 0.7: gaps[n] = rng.randint(1, 4)
+    if rng.random() < 0.3:
+        for _ in range(rng.choice([1, 1, 2, 3, n])):
+            gaps[rng.randint(0, n)] += rng.randint(1, 2)
+    while gaps and gaps[-1] == 0: gaps.pop()
+    return gaps
+
+
+def styled_real(rng):
+    nd = rng.choice([1, 2, 3, 5, 7, 8, 13, 15, 16, 17, rng.randint(1, 17), rng.randint(18, 40)])
+    digs = ''.join(rng.choice('0123456789') for _ in range(nd))
+    if rng.random() < 0.8: digs = rng.choice('123456789') + digs[1:]
+    e = rng.choice([0, 1, -1, 9, 10, -9, -10, 99, 100, 101, -98, -99, -100, 300, -300, rng.randint(-300, 300), rng.randint(-300, 300), rng.choice([-400, 400, 1000])])
+    neg = rng.random() < 0.4
+    plus = rng.random() < 0.25
+    lead0 = rng.random() < 0.5
+    scale = rng.choice([0, 0, 1, 1, nd, rng.randint(0, nd + 2)])
+    ek = rng.choice('LLLLDDN')
+    el = rng.choice('EeDd'); ep = rng.choice('++bn'); ew = rng.choice([1, 2, 2, 3, 3, 4])
+    if ek == 'N': e = min(scale, nd)          # Fw.d output: the point stands where the exponent says
+    p = (neg, digs, e, plus, lead0, scale, ek, el, ep, ew)
+    n = len(py_render_real(*p, gaps=[]))
+    return p + (gen_gaps(rng, n),)
+
+
+def styled_int(rng):
+    z = rng.choice([0, 1, -1, 9, 10, -10, 99, 100, 99999, rng.randint(-10**9, 10**9), rng.randint(-999, 999), rng.randint(-10**30, 10**30)])
+    plus = rng.random() < 0.2
+    m = rng.choice([0, 0, 0, 1, 3, 5, 8])
+    n = len(py_render_int(z, plus, m, []))
+    return (z, plus, m, gen_gaps(rng, n))
+
+
+def style_name(p):
+    neg, digs, e, plus, lead0, scale, ek, el, ep, ew, gaps = p
+    return {'L': 'letter-%s/%s' % (el, {'+': 'plus', 'b': 'blank-for-plus', 'n': 'no-sign'}[ep]), 'D': 'letter-dropped', 'N': 'no-exponent'}[ek]
+
+
+def styles(ctx, exe, n_real, n_int):
+    """The rendering FUNCTIONS the Coq theorems fortran_float_every_style / fortran_int_rendering speak
+    about (Styles.render, IntRender.render_int, run extracted) against an independent Fortran-style
+    formatter, and the property clause on the implementation: the printed text is read back as the
+    value Fortran would read (strtod of the canonical E form / the integer)."""
+    import fixed_format_file as fff
+    rng = random.Random(ctx.seed + 16)
+    b = lambda x: '1' if x else '0'
+    reals = [styled_real(rng) for _ in range(n_real)]
+    ints = [styled_int(rng) for _ in range(n_int)]
+    rtexts = [py_render_real(*p) for p in reals]
+    itexts = [py_render_int(*p) for p in ints]
+    if exe:
+        lines = ['\t'.join(['rr', b(neg), digs, str(e), b(plus), b(lead0), str(scale), ek, el, ep, str(ew), ','.join(map(str, gaps))])
+                 for (neg, digs, e, plus, lead0, scale, ek, el, ep, ew, gaps) in reals]
+        lines += ['\t'.join(['ri', str(z), b(plus), str(m), ','.join(map(str, gaps))]) for (z, plus, m, gaps) in ints]
+        out = vf.run_driver(exe, lines)
+        for p, t, o in zip(reals, rtexts, out[:len(reals)]):
+            h, _, val = o.partition('\t')
+            try: mt = bytes.fromhex(h).decode('latin-1')
+            except ValueError: mt = None
+            neg, digs, e = p[0], p[1], p[2]
+            if mt != t:
+                ctx.disagreement('Styles.render-vs-fortran-formatter', {'real': list(p)}, o, repr(t))
+            elif model_value(val) != ('f', bits(float(('-' if neg else '') + '0.' + digs + 'e' + str(e)))):
+                ctx.disagreement('Styles.real_value-vs-strtod', {'real': list(p)}, val, '0.%se%d' % (digs, e))
+        for p, t, o in zip(ints, itexts, out[len(reals):]):
+            try: mt = bytes.fromhex(o).decode('latin-1')
+            except ValueError: mt = None
+            if mt != t:
+                ctx.disagreement('IntRender.render_int-vs-fortran-formatter', {'int': list(p)}, o, repr(t))
+        ctx.corr_cases('Styles.render-vs-fortran-formatter', len(reals))
+        ctx.corr_cases('IntRender.render_int-vs-fortran-formatter', len(ints))
+        ctx.corr_cases('Styles.real_value-vs-strtod', len(reals))
+    dist = {}
+    for i, (p, text) in enumerate(zip(reals, rtexts)):
+        neg, digs, e = p[0], p[1], p[2]
+        want = float(('-' if neg else '') + '0.' + digs + 'e' + str(e))
+        dist[style_name(p)] = dist.get(style_name(p), 0) + 1
+        got = impl_value(fff.fortran_float, text, 0.0)
+        ctx.count(('styled-real', text))
+        if i < 3: ctx.sample({'rendering': text, 'style': style_name(p), 'fortran_value': want, 'read': repr(got)})
+        if got != ('f', bits(want)):
+            ctx.failure('fortran-styles', 'fortran_float:rendering', {'text': text}, repr(got), 'float %r' % want)
+    ctx.oracle_cases('fortran-styles', len(reals), styles=dist)
+    for p, text in zip(ints, itexts):
+        got = impl_value(fff.fortran_int, text, 0)
+        ctx.count(('styled-int', text))
+        if got != ('i', p[0]):
+            ctx.failure('fortran-int-styles', 'fortran_int:rendering', {'text': text}, repr(got), 'int %r' % p[0])
+    ctx.oracle_cases('fortran-int-styles', len(ints))
 
 
 def gen_strings(ctx):
@@ -249,7 +372,10 @@ def run(ctx):
     ctx.rule = ('strings: exhaustive over the 17-character alphabet %r up to length %d, random strings to width 20 '
                 '(70%% over a number-like alphabet, 30%% printable), an edge-case pool, random Fortran renderings of reals '
                 '(sign x 1..17 digits x exponent -300..300 x E/D/e/d/no-letter/blank-for-plus/no-exponent x 4 mantissa forms x padding x embedded blank) '
-                'and of integers; a case is distinct by its text and non-trivial when it is not blank' % (ALPHABET, 5 if ctx.thorough else 4))
+                'and of integers; styled renderings: random (sign, 1..40 digits, exponent -300..300 and a few beyond) x (explicit plus, 0.ddd/.ddd, 0..n+2 digits before the point, '
+                'exponent letter E/e/D/d with +/blank/no sign and 1..4 digits | letter dropped | no exponent) x blank placement (padding and blanks at any position), printed both by the '
+                'extracted Coq rendering function and by an independent formatter; integers likewise (sign, Iw.m zero fill, blanks anywhere); '
+                'a case is distinct by its text and non-trivial when it is not blank' % (ALPHABET, 5 if ctx.thorough else 4))
     ctx.trusted += ['Coq 8.16.1 kernel (coqc); vm_compute only inside proofs by reflection on closed terms; no native_compute',
                     'translator tools/translate/pyfun.py (Python AST -> Gallina over PTBase.PyVal), fail-closed',
                     'PTBase.PyVal / PyStr / PyNum: hand-written semantics of the Python operations used (str methods, slicing, float()/int() grammar), validated on this run against the running CPython',
@@ -270,6 +396,7 @@ def run(ctx):
     if exe:
         correspond(ctx, exe, strings)
     oracle(ctx, 200000 if ctx.thorough else 30000, 20000 if ctx.thorough else 5000, strings)
+    styles(ctx, exe, 200000 if ctx.thorough else 20000, 40000 if ctx.thorough else 5000)
 
     def deep(broken):
         rng = random.Random(ctx.seed + 77)
